@@ -16,6 +16,16 @@ type mutant struct {
 }
 
 var mutants = []mutant{
+	// operators added with the rules that the seeded changes of round 1 motivated
+	{"C02-cache-wrong-source", "C02", "jtp/jtp.go", "b.item, b.source, b.err = Get(location, accept, tolerated, maxRedirects-1)", "b.item, _, b.err = Get(location, accept, tolerated, maxRedirects-1)\n\t\tb.source = link", "C02.R4"},
+	{"C03-header-unanchored", "C03", "jtp/jtp.go", "`^(?i:location):[ \\t\\r]*(.*?)[ \\t\\r]*\\n$`", "`(?i:location):[ \\t\\r]*(.*?)[ \\t\\r]*\\n$`", "C03.R5"},
+	{"C07-backspace-bytes", "C07", "ui/ui.go", "\t\tbufferRunes := []rune(s.buffer)\n\t\ts.buffer = string(bufferRunes[:len(bufferRunes)-1])", "\t\ts.buffer = s.buffer[:len(s.buffer)-1]", "C07.R5"},
+	{"C11-in-place-pop", "C11", "splicer/splicer.go", "s[mostRecentIndex].elements = s[mostRecentIndex].elements[1:]", "s[mostRecentIndex].elements = s[mostRecentIndex].elements[:copy(s[mostRecentIndex].elements, s[mostRecentIndex].elements[1:])]", "C11.R5"},
+	{"C11-replenish-shortcut", "C11", "splicer/splicer.go", "func (s Splicer) replenish(amount int) {\n\tvar wg sync.WaitGroup", "func (s Splicer) replenish(amount int) {\n\tif len(s) > 0 && len(s[0].elements) >= amount {\n\t\treturn\n\t}\n\tvar wg sync.WaitGroup", "C11.R6"},
+	{"C12-append-width-guard", "C12", "hypertext/hypertext.go", "\t\t*ctx.links = append(*ctx.links, link)\n\t\tctx.width -= 2\n\t\twrapped := situationalWrap(alt, ctx)\n\t\treturn block(style.LinkBlock(wrapped, len(*ctx.links)))\n\tcase \"iframe\":", "\t\tif ctx.width < 3 {\n\t\t\treturn block(alt)\n\t\t}\n\t\t*ctx.links = append(*ctx.links, link)\n\t\tctx.width -= 2\n\t\twrapped := situationalWrap(alt, ctx)\n\t\treturn block(style.LinkBlock(wrapped, len(*ctx.links)))\n\tcase \"iframe\":", "C12.R5"},
+	{"C17-null-not-absent", "C17", "object/object.go", "if value, ok := o[key]; !ok || value == nil {", "if value, ok := o[key]; !ok {", "C17.R4"},
+	{"C19-cache-2q", "C19", "jtp/jtp.go", "lru.New[string, bundle](config.Parsed.Network.CacheSize)", "lru.New2Q[string, bundle](config.Parsed.Network.CacheSize)", "C19.R3"},
+	{"C19-signed-parse", "C19", "config/config.go", "r, err := strconv.ParseUint(text[1:3], 16, 0)", "r, err := strconv.ParseInt(text[1:3], 16, 0)", "C19.R2"},
 	// C01
 	{"C01-scrub-getstring", "C01", "object/object.go", "value = ansi.Scrub(value)", "value = ansi.Squash(value)", "C01.R1"},
 	{"C01-scrub-problem", "C01", "style/style.go", "Red(ansi.Scrub(issue.Error()))", "Red(issue.Error())", "C01.R1"},
